@@ -5,7 +5,7 @@
   and one receive), a bound on the length of every execution, the outcome attribution, the kill
   timing, and independence from the deadline of every execution in which the context does not fire.
 -/
-import GIV.Model.TsLife
+import GIV.Model.TsLifeDl
 
 namespace GIV.TsLife
 open GIV
